@@ -176,7 +176,7 @@ func (runInfo *runInfoStruct) invokeAddOperator(operator *ast.AddOperator) {
 				return
 			}
 			// try to append rhs non-slice to lhs slice
-			runInfo.rv, runInfo.err = convertReflectValueToType(runInfo.rv, lhsV.Type().Elem())
+			runInfo.rv, runInfo.err = runInfo.convertValue(runInfo.rv, lhsV.Type().Elem())
 			if runInfo.err != nil {
 				runInfo.err = newStringError(operator, "invalid type conversion")
 				runInfo.rv = nilValue
